@@ -285,6 +285,25 @@ class SlotInterp:
                     ret = (1 if old else 0) if ci in self.bool_cells else ("variant", 1 if old else 0)
                     return [(ret, st2, eff)]
             return [(UNKNOWN, st, eff)]
+        aop = atomic_op(path)
+        if aop and arg_paths and arg_paths[0]:
+            for op in arg_paths[0]:
+                ci, rest = self.cell_of(op)
+                if ci is not None and not rest and ci in self.bool_cells:
+                    old = st[ci]
+                    name = path.split("::")[-1]
+                    if aop == "LOAD":
+                        return [(1 if old else 0, st, eff)]
+                    nv = self._operand_val(body, args[1], env, st, binding) if len(args) > 1 else UNKNOWN
+                    if aop == "STORE" and isinstance(nv, int):
+                        return [(UNKNOWN, st[:ci] + (bool(nv),) + st[ci + 1:], eff)]
+                    if name == "swap" and isinstance(nv, int):
+                        return [(1 if old else 0, st[:ci] + (bool(nv),) + st[ci + 1:], eff)]
+                    if name == "fetch_or" and isinstance(nv, int):
+                        return [(1 if old else 0, st[:ci] + (bool(old or nv),) + st[ci + 1:], eff)]
+                    if name == "fetch_and" and isinstance(nv, int):
+                        return [(1 if old else 0, st[:ci] + (bool(old and nv),) + st[ci + 1:], eff)]
+                    raise Unsupported("atomic %s on tracked flag in %s" % (name, body.nid))
         if path in OPTION_COMBINATORS and args:
             # Option::map / and_then / ... : the closure runs iff the option is Some
             pres = self._option_presence(body, args[0], env, st, binding)
